@@ -98,7 +98,7 @@ SPEC = dict(
         dict(name='execute_pending_local', harness='h_execute_pending_local', enforce='CTX_execute_pending_local'),
         dict(name='execute_pending_local_body', harness='h_epl_loop0_body', enforce='epl__loop0_body'),
         dict(name='try_schedule', harness='h_try_schedule', enforce='CTX_try_schedule_local_remote_queue_contents',
-             replace=['AQ_try_mark_inactive_or_dequeue_all', 'CTX_schedule_local_q']),
+             replace=['CTX_schedule_local_q']),
         dict(name='run_impl', harness='h_run_impl', enforce='CTX_run_impl'),
         dict(name='run_impl_body', harness='h_run_loop0_body', enforce='run__loop0_body',
              replace=['CTX_execute_pending_local', 'CTX_try_schedule_local_remote_queue_contents', 'CTX_acquire_completion_queue_items']),
